@@ -8,6 +8,7 @@ id = "C20"
 area = "layout"
 driver = "drv_layout"
 cxx = False
+link_extra = ("-Wl,--wrap=realloc", "-Wl,--wrap=strdup")
 fixed_lines = 1
 rule = ("scripts start with 'y begin'; stream 1 (exhaustive over the generated tables): for every kind, every name "
         "of the setter chain, every listed property name, every proper prefix and one over-long variant of those names "
@@ -310,6 +311,35 @@ def scripts(tier, seed, scale=1):
                 for special in ("null", "nullstr"):
                     out.append(("ex:%s:%s:%s" % (k.name, n, special), new + pre + ["y set 0 %s %s" % (nm(n), special), "y dump 0"]))
                     out.append(("ex:%s:%s:%s:d" % (k.name, n, special), new + ["y set 0 %s %s" % (nm(n), special), "y dump 0"]))
+        # string properties: a source that answers 's' only; an allocation that fails in exactly that call (with and
+        # without a string already held), read after the refused call
+        for names, act in k.sets:
+            if not act.startswith(".string"):
+                continue
+            for n, _ci in names:
+                for v in ("new text", "x", ""):
+                    h = hx(v) if v else "-"
+                    out.append(("sonly:%s:%s:%s" % (k.name, n, h), new + pre + ["y sets 0 %s %s" % (nm(n), h), "y get 0 %s" % nm(n), "y dump 0"]))
+                    for op in ("set", "sets"):
+                        for fl in (1, 2):
+                            for with_pre in (True, False):
+                                out.append(("fail:%s:%s:%s:%s:%d:%d" % (k.name, n, op, h, fl, with_pre),
+                                            new + (pre if with_pre else []) + ["y fail %d" % fl, "y %s 0 %s %s" % (op, nm(n), h),
+                                                                                "y get 0 %s" % nm(n), "y dump 0", "y %s 0 %s %s" % (op, nm(n), hx("again")), "y dump 0"]))
+        # copy while a strdup fails: equal properties or refused without change
+        for fl in (1, 2, 3):
+            out.append(("copyfail:%s:%d" % (k.name, fl), new + pre + ["y new " + k.name, "y set 1 %s %s" % (nm(listed[0]), hx("1")), "y fail %d" % fl,
+                                                                       "y copy 1 0", "y dump 1", "y dump 0"]))
+        # an axis with style/limit bits (as the C++ layer creates typed axes): no set, reset of one property or get
+        # may change them
+        if k.name == "axis":
+            for fl in (1, 2, 3, 8, 11, 16, 27):
+                head = ["y begin", "y newf axis %d" % fl]
+                for names, act in k.sets:
+                    for n, _ci in names:
+                        vals = ["null", "nullstr", "-", hx(" "), hx("5")] + ([hx("log")] if act.startswith(".intervals") else [])
+                        out.append(("style:%d:%s" % (fl, n), head + sum((["y set 0 %s %s" % (nm(n), v), "y dump 0"] for v in vals), [])
+                                    + ["y new axis", "y copy 1 0", "y dump 1", "y reset 0", "y dump 0"]))
         # every name, prefix and over-long variant: set with a harmless value and get
         for n in name_variants(sorted(set(listed + chain))):
             out.append(("nm:%s:%s" % (k.name, n), new + pre + ["y get 0 %s" % nm(n), "y set 0 %s %s" % (nm(n), hx("1")),
